@@ -521,3 +521,38 @@ func RunStep(authority []byte, req sdk.Msg, call func(ctx context.Context) error
 		CheckC03(s.Sk.Acct, s.Sk.Batch, s.Sk.Denom)
 	}
 }
+
+// RunDet (C10): self-composition of one handler. The handler is executed twice from the
+// same arbitrary pre-state, request and block time; every source of nondeterminism the
+// engine models (map iteration order, wall clock) is chosen independently in the two
+// executions; the final table contents, coins, events, outcome and response must agree,
+// and no execution may write per-process state (package-level variables, memory reachable
+// from the keeper), which is what makes a restart between blocks invisible.
+func RunDet(keeper interface{}, req sdk.Msg, call func(ctx context.Context) (interface{}, error)) {
+	zz.NondetInto("req", req)
+	zz.Assume(req.ValidateBasic() == nil)
+	zz.ProcessState(keeper)
+	run := func() (resp interface{}, err error, panicked bool) {
+		defer func() {
+			if r := recover(); r != nil {
+				err = errPanicked
+				panicked = true
+			}
+		}()
+		resp, err = call(zz.Context())
+		return resp, err, false
+	}
+	zz.OrmBegin()
+	r1, e1, p1 := run()
+	zz.EffectsSnapshot()
+	zz.OrmRollbackIf(true)
+	r2, e2, p2 := run()
+	zz.Assert(zz.And((e1 == nil) == (e2 == nil), p1 == p2), "C10 two executions of the same message from the same state have the same outcome")
+	zz.Assert(zz.SameEffects(), "C10 two executions of the same message from the same state leave the same table contents, coins and events")
+	if e1 == nil && e2 == nil {
+		zz.Assert(zz.DeepEqual(r1, r2), "C10 two executions of the same message from the same state give the same response")
+	}
+	zz.Assert(zz.HiddenWrites() == 0, "C10 the handler writes no per-process state (package-level variables, keeper memory)")
+	zz.Assert(zz.WallClockReads() == 0, "C10 the handler reads no wall clock and starts no goroutine")
+	zz.Reach("two executions")
+}
